@@ -411,6 +411,28 @@ def row_strings(c: Ctx) -> None:
         c.expect_encoding(W.write_legacy_string, R.read_legacy_string, "€" * 10922 + "x", (32767).to_bytes(2, "big") + ("€" * 10922 + "x").encode())
         c.expect_raises(W.write_legacy_bytes, LyingBytes(b"abc"), what="2**31-byte (length-lying)")
         c.expect_raises(W.write_nullable_legacy_bytes, LyingBytes(b"abc"), what="2**31-byte (length-lying)")
+        # negative length prefixes other than the null marker are not an encoding of anything: the reader may reject them (or treat
+        # them as null) but it may not hand out bytes for them, and it may never ask the source for a negative number of bytes
+        for r, width in ((R.read_legacy_string, 2), (R.read_nullable_legacy_string, 2), (R.read_legacy_bytes, 4), (R.read_nullable_legacy_bytes, 4)):
+            for n in (-2, -3, -(1 << (8 * width - 1))):
+                src = ReadOnlySource(n.to_bytes(width, "big", signed=True) + b"next-field-bytes")
+                c.tick(r)
+                try:
+                    out = r(src)
+                except Exception:  # noqa: BLE001
+                    out = None
+                if out or src.observed_events():
+                    c.bad(f"reader-negative-length:{r.__name__}", f"{r.__name__} given the length prefix {n} returned {out!r} (source events {src.observed_events()})",
+                          function=r.__name__, length=n)
+        for n in (-1, -2, -7):
+            src = ReadOnlySource(b"abcdef")
+            c.tick(R.read_exact)
+            try:
+                out = R.read_exact(src, n)
+            except Exception:  # noqa: BLE001
+                out = None
+            if out or src.observed_events():
+                c.bad("reader-negative-length:read_exact", f"read_exact(n={n}) returned {out!r} (source events {src.observed_events()})", length=n)
         # truncated payloads
         for r, data in ((R.read_compact_string, b"\x05ab"), (R.read_legacy_string, b"\x00\x05ab"), (R.read_legacy_bytes, b"\x00\x00\x00\x05ab"),
                         (R.read_compact_string_as_bytes_nullable, b"\x05ab"), (R.read_nullable_legacy_bytes, b"\x00\x00\x00")):
